@@ -78,6 +78,28 @@ func c38Body(pat string) [][]byte {
 	return nil
 }
 
+// c38BigVal is a deterministic printable value that Huffman coding cannot
+// shrink much (mixed punctuation/upper case), n octets long.
+func c38BigVal(tag, n int) string {
+	const alpha = "{}|~^`\\<>@#$%&*?!;QZXJKVWY_+=[]"
+	b := make([]byte, n)
+	x := uint32(tag*2654435761 + 12345)
+	for i := range b {
+		x = x*1664525 + 1013904223
+		b[i] = alpha[(x>>16)%uint32(len(alpha))]
+	}
+	return string(b)
+}
+
+// c38BigFields: k header fields of 8000 octets each (k=4: block > 16 KB, needs CONTINUATION; k=12: > 64 KB).
+func c38BigFields(k int) map[string]string {
+	m := map[string]string{}
+	for i := 0; i < k; i++ {
+		m[fmt.Sprintf("X-Big-%02d", i)] = c38BigVal(i, 8000)
+	}
+	return m
+}
+
 func c38TotalLen(pat string) int {
 	n := 0
 	for _, w := range c38Body(pat) {
@@ -139,6 +161,15 @@ func c38SetHeaders(set string, writes string, h bfe_http.Header) (exp map[string
 	case "date":
 		put("Date", "Thu, 01 Jan 1970 00:00:00 GMT")
 		exp["date"] = []string{"Thu, 01 Jan 1970 00:00:00 GMT"}
+	case "big-16k", "big-64k":
+		k := 4
+		if set == "big-64k" {
+			k = 12
+		}
+		for name, v := range c38BigFields(k) {
+			put(name, v)
+			exp[strings.ToLower(name)] = []string{v}
+		}
 	case "connection-nominates":
 		put("Connection", "X-Hop")
 		put("X-Hop", "1")
@@ -175,7 +206,7 @@ func (h *c38Handler) ServeHTTP(w bfe_http.ResponseWriter, req *bfe_http.Request)
 	defer h.obs.Store(key, ob)
 	c38SetHeaders(sc.Headers, sc.Writes, w.Header())
 	switch sc.Trailers {
-	case "predeclared", "declared-unset":
+	case "predeclared", "declared-unset", "predeclared-big":
 		w.Header().Set("Trailer", "X-T1")
 	case "both":
 		w.Header().Set("Trailer", "X-T1")
@@ -195,6 +226,10 @@ func (h *c38Handler) ServeHTTP(w bfe_http.ResponseWriter, req *bfe_http.Request)
 		}
 	}
 	switch sc.Trailers {
+	case "predeclared-big":
+		w.Header().Set("X-T1", c38BigVal(77, 40000))
+	case "prefix-big":
+		w.Header().Set("Trailer:X-T2", c38BigVal(78, 40000))
 	case "predeclared":
 		w.Header().Set("X-T1", "tv1")
 	case "prefix":
@@ -228,6 +263,17 @@ func c38Check(r *vkit.Run, sc *c38Script, ob *c38Observed, evs []h2cli.Event, id
 		report("no-response", "no frame at all for "+shape)
 		return
 	}
+	for _, e := range evs {
+		if e.Type == http2.FrameHeaders && e.Frames > 1 {
+			r.Count("header_blocks_with_continuation", 1)
+			if e.EndStream {
+				r.Count("stream_ending_header_blocks_with_continuation", 1)
+			}
+			if e.Frames > 4 {
+				r.Count("header_blocks_over_64k", 1)
+			}
+		}
+	}
 	// ---- END_STREAM exactly once and last ----
 	ends := 0
 	for i, e := range evs {
@@ -247,6 +293,11 @@ func c38Check(r *vkit.Run, sc *c38Script, ob *c38Observed, evs []h2cli.Event, id
 		why := "other"
 		if sc.Trailers == "declared-unset" {
 			why = "declared-trailer-never-set"
+		}
+		for _, e := range evs {
+			if e.Type == http2.FrameHeaders && e.Frames > 1 {
+				why = "header-block-in-continuation-frames"
+			}
 		}
 		report("end-stream:never-sent:"+why, fmt.Sprintf("%s: the handler returned and the server went quiescent (empty scheduler, PING round trips) without ever sending END_STREAM", shape))
 		return
@@ -280,7 +331,7 @@ func c38Check(r *vkit.Run, sc *c38Script, ob *c38Observed, evs []h2cli.Event, id
 	// ---- header fields ----
 	exp, connSpecific, nominated := c38SetHeaders(sc.Headers, sc.Writes, nil)
 	switch sc.Trailers {
-	case "predeclared", "declared-unset", "both":
+	case "predeclared", "declared-unset", "both", "predeclared-big":
 		exp["trailer"] = []string{"X-T1"}
 	}
 	for _, n := range connSpecific {
@@ -305,7 +356,7 @@ func c38Check(r *vkit.Run, sc *c38Script, ob *c38Observed, evs []h2cli.Event, id
 			if strings.HasPrefix(n, "x-") {
 				cls = "custom"
 			}
-			report("header-mismatch:"+cls, fmt.Sprintf("%s: field %q is %v, handler set %v", shape, n, got[n], vs))
+			report("header-mismatch:"+cls, fmt.Sprintf("%s: field %q is %s, handler set %s", shape, n, trunc(fmt.Sprint(got[n]), 200), trunc(fmt.Sprint(vs), 200)))
 			return
 		}
 	}
@@ -359,6 +410,10 @@ func c38Check(r *vkit.Run, sc *c38Script, ob *c38Observed, evs []h2cli.Event, id
 	wantTr := map[string][]string{}
 	if sc.Method != "HEAD" {
 		switch sc.Trailers {
+		case "predeclared-big":
+			wantTr["x-t1"] = []string{c38BigVal(77, 40000)}
+		case "prefix-big":
+			wantTr["x-t2"] = []string{c38BigVal(78, 40000)}
 		case "predeclared":
 			wantTr["x-t1"] = []string{"tv1"}
 		case "prefix":
@@ -391,7 +446,7 @@ func c38Check(r *vkit.Run, sc *c38Script, ob *c38Observed, evs []h2cli.Event, id
 		if len(wantBody) == 0 {
 			bodyKind = "empty-body"
 		}
-		report(kind+":"+sc.Trailers+"/"+bodyKind, fmt.Sprintf("%s: trailers received %v, handler declared and set %v", shape, gotTr, wantTr))
+		report(kind+":"+sc.Trailers+"/"+bodyKind, fmt.Sprintf("%s: trailers received %s, handler declared and set %s", shape, trunc(fmt.Sprint(gotTr), 200), trunc(fmt.Sprint(wantTr), 200)))
 		return
 	}
 }
@@ -419,6 +474,38 @@ func c38All() []c38Script {
 						if st == 0 && wp == "none" && (tm == "predeclared" || tm == "prefix" || tm == "both") {
 							// nothing fixes the header set before the trailer values are stored, so they are
 							// legitimately part of the header block as well: ambiguous, excluded
+							continue
+						}
+						all = append(all, c38Script{Method: m, Status: st, Headers: hs, Writes: wp, Trailers: tm})
+					}
+				}
+			}
+		}
+	}
+	// header block size axis: blocks that need CONTINUATION frames (> 16 KB) and > 64 KB, for the
+	// response header block (also when it ends the stream: HEAD, 204, 304, 1xx, no writes) ...
+	for _, m := range c38Methods {
+		for _, st := range c38Statuses {
+			for _, hs := range []string{"big-16k", "big-64k"} {
+				for _, wp := range []string{"none", "small", "over-buffer"} {
+					for _, tm := range []string{"none", "predeclared"} {
+						bodyless := m == "HEAD" || st == 204 || st == 304 || st == 199
+						if tm != "none" && (bodyless || (st == 0 && wp == "none")) {
+							continue
+						}
+						all = append(all, c38Script{Method: m, Status: st, Headers: hs, Writes: wp, Trailers: tm})
+					}
+				}
+			}
+		}
+	}
+	// ... and for the trailer block (always stream-ending)
+	for _, m := range []string{"GET", "POST"} {
+		for _, st := range []int{0, 200, 404} {
+			for _, hs := range []string{"none", "mixed-case", "big-16k"} {
+				for _, wp := range c38WritePats {
+					for _, tm := range []string{"predeclared-big", "prefix-big"} {
+						if st == 0 && wp == "none" {
 							continue
 						}
 						all = append(all, c38Script{Method: m, Status: st, Headers: hs, Writes: wp, Trailers: tm})
@@ -526,7 +613,7 @@ func c38RunBatch(r *vkit.Run, batch []c38Script) {
 }
 
 func c38(r *vkit.Run) {
-	r.SetRule("finite axes enumerated completely: method {GET,HEAD,POST} x status {implicit,200,201,404,500,204,304,199} x header set {none, mixed case, multi-value, Connection, Keep-Alive, Transfer-Encoding, Proxy-Connection+Upgrade, Content-Type, Content-Length right/too small/too big, Date, Connection nominating a field} x write pattern {none, empty write, 10 B, 5000 B (> 4 KB buffer), two writes with Flush between, Flush first, 70000 B, 12x3 B with flushes} x trailers {none, predeclared via Trailer, 'Trailer:' prefix, declared but never set, both}; trailers on body-less responses are excluded (statement silent). Each script is one stream; 24 streams per connection; client windows 2^20/2^30 so flow control never interferes. Model: status as set (200 if never set); every handler field lower-cased with values in order, Connection/Keep-Alive/Proxy-Connection/Transfer-Encoding/Upgrade absent, only content-type/content-length/date may be added; body = concatenation of the octets Write accepted (none for HEAD,1xx,204,304); trailer block = exactly the declared trailers that were set; END_STREAM once and last. bfe's extra HopHeaders (Proxy-Authenticate/Proxy-Authorization) and fields nominated by Connection are observed, not judged. Thorough repeats the enumeration with 3 more stream orders/batchings. Non-trivial = script sets a header, writes or trailers; distinct = script")
+	r.SetRule("finite axes enumerated completely: method {GET,HEAD,POST} x status {implicit,200,201,404,500,204,304,199} x header set {none, mixed case, multi-value, Connection, Keep-Alive, Transfer-Encoding, Proxy-Connection+Upgrade, Content-Type, Content-Length right/too small/too big, Date, Connection nominating a field} x write pattern {none, empty write, 10 B, 5000 B (> 4 KB buffer), two writes with Flush between, Flush first, 70000 B, 12x3 B with flushes} x trailers {none, predeclared via Trailer, 'Trailer:' prefix, declared but never set, both}; plus a header-block-size axis: response header sets of 4 resp. 12 fields of 8000 hardly compressible octets (HPACK block > 16 KB resp. > 64 KB => HEADERS + CONTINUATION frames) x every method x status x {no write, 10 B, 5000 B} x {no trailers, predeclared}, and 40000-octet trailer values (predeclared and 'Trailer:'-prefixed) x {GET,POST} x {implicit,200,404} x {none, mixed case, >16 KB header set} x every write pattern; trailers on body-less responses are excluded (statement silent). Each script is one stream; 24 streams per connection; client windows 2^20/2^30 so flow control never interferes. Model: status as set (200 if never set); every handler field lower-cased with values in order, Connection/Keep-Alive/Proxy-Connection/Transfer-Encoding/Upgrade absent, only content-type/content-length/date may be added; body = concatenation of the octets Write accepted (none for HEAD,1xx,204,304); trailer block = exactly the declared trailers that were set; END_STREAM once and last. bfe's extra HopHeaders (Proxy-Authenticate/Proxy-Authorization) and fields nominated by Connection are observed, not judged. Thorough repeats the enumeration with 3 more stream orders/batchings. Non-trivial = script sets a header, writes or trailers; distinct = script")
 	r.Assume("x/net hpack decoder as independent codec")
 	if r.Replay != "" {
 		var w struct {
@@ -562,4 +649,7 @@ func c38(r *vkit.Run) {
 		})
 	}
 	r.SetExhaustive(true)
+	if r.Violations() == 0 && (r.Counter("stream_ending_header_blocks_with_continuation") == 0 || r.Counter("header_blocks_over_64k") == 0) {
+		r.Inconclusive("C38: no stream-ending header block was split into CONTINUATION frames (block-size axis not reached)")
+	}
 }
